@@ -19,14 +19,33 @@ pub struct GV {
     pub id: u32,
 }
 
+/// Harness protection, never part of an oracle: the adapter counts every context it processes and every vertex it hands
+/// out; past `WORK_LIMIT` it panics with this marker, which `engine::execute` turns into `ExecOutcome::Budget` (the case is
+/// then discarded and counted). Generated queries have a heavy tail (deep recursion over dense cyclic data with selective
+/// filters can need minutes while producing few rows).
+pub const BUDGET_MARKER: &str = "TFV-BUDGET-EXHAUSTED";
+pub const WORK_LIMIT: u64 = 400_000;
+
 #[derive(Clone, Debug)]
 pub struct GraphAdapter {
     pub world: Arc<World>,
+    work: Arc<std::sync::atomic::AtomicU64>,
 }
 
 impl GraphAdapter {
     pub fn new(world: Arc<World>) -> Self {
-        Self { world }
+        Self { world, work: Arc::new(std::sync::atomic::AtomicU64::new(0)) }
+    }
+    /// units of work done so far (contexts processed + vertices handed out)
+    pub fn work_done(&self) -> u64 {
+        self.work.load(std::sync::atomic::Ordering::Relaxed)
+    }
+}
+
+#[inline]
+fn tick(work: &std::sync::atomic::AtomicU64) {
+    if work.fetch_add(1, std::sync::atomic::Ordering::Relaxed) >= WORK_LIMIT {
+        panic!("{BUDGET_MARKER}");
     }
 }
 
@@ -44,7 +63,11 @@ impl<'a> Adapter<'a> for GraphAdapter {
         _resolve_info: &ResolveInfo,
     ) -> VertexIterator<'a, Self::Vertex> {
         let ids = self.world.entry_vertices(edge_name, &params_to_map(parameters));
-        Box::new(ids.into_iter().map(|id| GV { id }))
+        let work = self.work.clone();
+        Box::new(ids.into_iter().map(move |id| {
+            tick(&work);
+            GV { id }
+        }))
     }
 
     fn resolve_property<V: AsVertex<Self::Vertex> + 'a>(
@@ -56,7 +79,9 @@ impl<'a> Adapter<'a> for GraphAdapter {
     ) -> ContextOutcomeIterator<'a, V, FieldValue> {
         let world = self.world.clone();
         let prop = property_name.clone();
+        let work = self.work.clone();
         Box::new(contexts.map(move |ctx| {
+            tick(&work);
             let value = match ctx.active_vertex::<GV>() {
                 None => FieldValue::Null,
                 Some(gv) => world.prop(gv.id, &prop).to_field_value(),
@@ -76,12 +101,18 @@ impl<'a> Adapter<'a> for GraphAdapter {
         let world = self.world.clone();
         let edge = edge_name.clone();
         let params = params_to_map(parameters);
+        let work = self.work.clone();
         Box::new(contexts.map(move |ctx| {
+            tick(&work);
             let neighbors: VertexIterator<'a, GV> = match ctx.active_vertex::<GV>() {
                 None => Box::new(std::iter::empty()),
                 Some(gv) => {
                     let ids = world.neighbors(gv.id, &edge, &params);
-                    Box::new(ids.into_iter().map(|id| GV { id }))
+                    let work = work.clone();
+                    Box::new(ids.into_iter().map(move |id| {
+                        tick(&work);
+                        GV { id }
+                    }))
                 }
             };
             (ctx, neighbors)
@@ -97,7 +128,9 @@ impl<'a> Adapter<'a> for GraphAdapter {
     ) -> ContextOutcomeIterator<'a, V, bool> {
         let world = self.world.clone();
         let target = coerce_to_type.clone();
+        let work = self.work.clone();
         Box::new(contexts.map(move |ctx| {
+            tick(&work);
             let ok = match ctx.active_vertex::<GV>() {
                 None => false,
                 Some(gv) => world.schema.is_subtype(&target, &world.vertex(gv.id).ty),
